@@ -20,7 +20,7 @@ import (
 )
 
 type c15Params struct {
-	Part  string `json:"part"` // shapes | pairs | big | fds | mutate
+	Part  string `json:"part"` // shapes | pairs | big | fds | fanout | mutate
 	Shard int    `json:"shard"`
 	N     int    `json:"n"`
 }
@@ -444,6 +444,45 @@ func c15Run(j vs.Job) *vs.JobResult {
 		if d := c15Compare(src, dst); d != "" {
 			r.Violate("c15:fd-tree", "300-entry tree differs: "+d, nil)
 		}
+	case "fanout":
+		// wide directories: more direct entries than any plausible batch of a directory read (top level and nested)
+		for _, n := range []int{1025, 4500} {
+			src := fresh()
+			wide := filepath.Join(src, "r", "wide")
+			must(os.MkdirAll(wide, 0o755))
+			for i := 0; i < n; i++ {
+				switch {
+				case i%97 == 0:
+					must(os.MkdirAll(filepath.Join(src, "r", fmt.Sprintf("d%05d", i)), 0o755))
+				case i%3 == 0:
+					must(os.WriteFile(filepath.Join(src, "r", fmt.Sprintf("f%05d", i)), nil, 0o644))
+				default:
+					must(os.WriteFile(filepath.Join(src, "r", fmt.Sprintf("f%05d", i)), []byte(fmt.Sprintf("entry %d", i)), 0o644))
+				}
+				must(os.WriteFile(filepath.Join(wide, fmt.Sprintf("w%05d", i)), []byte{byte(i)}, 0o644))
+			}
+			top, stream, announced, err := c15Produce(src, 32768)
+			r.Execs++
+			r.Nontrivial++
+			if err != nil {
+				r.Violate("c15:fanout-produce", fmt.Sprintf("a directory with %d direct entries cannot be produced: %v", n, err), nil)
+				return r
+			}
+			if announced != int64(len(stream)) {
+				r.Violate("c15:fanout-size", fmt.Sprintf("%d direct entries: announced %d, produced %d", n, announced, len(stream)), nil)
+				return r
+			}
+			dst := fresh()
+			if err := c15Consume(dst, top, stream, nil); err != nil {
+				r.Violate("c15:fanout-consume", fmt.Sprintf("%d direct entries: writing the archive failed: %v", n, err), nil)
+				return r
+			}
+			if d := c15Compare(src, dst); d != "" {
+				r.Violate("c15:fanout-tree", fmt.Sprintf("a tree whose directories have %d direct entries is not reconstructed: %s", n, clipStr(d, 300)), nil)
+				return r
+			}
+			r.Max("fanout_entries_max", float64(2*n))
+		}
 	case "mutate":
 		// a source file changes length between the scan and the read, and after every k-th read of the producer
 		// (k = 0: before the first read; the file may be unopened, open and partly read, or done by then)
@@ -580,7 +619,7 @@ func init() {
 		ID:    "C15",
 		Level: "exploration",
 		Rule: "every tree shape with <= 4 entries over {directory, empty file, 1-byte file, 3-byte file} and depth <= 2 x producer read sizes {1,2,3,7,64,32768} x consumer segmentation {whole, every single cut, uniform sizes 1..8}; every pair of cuts on three core trees; a tree with files of several read buffers, unicode names and empty directories cut at and around every header/payload boundary; " +
-			"a deep tree of 240-byte unicode names (entry headers above 1 KiB) with every single cut and 12 uniform write sizes; a 300-entry tree (every third file empty) with descriptor counts taken after every read / write (GC off); each of three files shrinking, emptied or growing between scan and read and after every k-th read of the producer (every moment of the stream) x read sizes {7,64,32768} (thorough: also 1)",
+			"a deep tree of 240-byte unicode names (entry headers above 1 KiB) with every single cut and 12 uniform write sizes; directories with 1025 and 4500 direct entries (top level and nested); a 300-entry tree (every third file empty) with descriptor counts taken after every read / write (GC off); each of three files shrinking, emptied or growing between scan and read and after every k-th read of the producer (every moment of the stream) x read sizes {7,64,32768} (thorough: also 1)",
 		Assumptions: []string{"real file system in a scratch directory on tmpfs", "descriptor use is counted in /proc/self/fd with the garbage collector disabled so that finalizers cannot hide a leak"},
 		QuickBudget: 100, ThoroughBudget: 600, DiedIsViolation: true,
 		Jobs: func(tier string) []vs.Job {
@@ -592,7 +631,7 @@ func init() {
 			for s := 0; s < 4; s++ {
 				jobs = append(jobs, vs.MkJob(fmt.Sprintf("pairs %d/4", s), c15Params{Part: "pairs", Shard: s, N: 4}))
 			}
-			jobs = append(jobs, vs.MkJob("big", c15Params{Part: "big"}), vs.MkJob("long names", c15Params{Part: "longnames"}), vs.MkJob("fds", c15Params{Part: "fds"}), vs.MkJob("mutate", c15Params{Part: "mutate"}))
+			jobs = append(jobs, vs.MkJob("big", c15Params{Part: "big"}), vs.MkJob("long names", c15Params{Part: "longnames"}), vs.MkJob("fds", c15Params{Part: "fds"}), vs.MkJob("fanout", c15Params{Part: "fanout"}), vs.MkJob("mutate", c15Params{Part: "mutate"}))
 			return jobs
 		},
 		Run: c15Run,
